@@ -59,6 +59,10 @@ def committed_goal_case(rep, drv, rnd, i):
         ('t14', [V('B'), V('C')], ('conj', ('call', 'findall', [('F', 'tr', [V('X'), V('Y'), V('Z')]), ('F', 'al3', [V('X'), V('Y'), V('Z')]), V('L')]),
                                    ('conj', ('call', '=', [V('L'), ('P', [('F', 'tr', [V('A'), V('B'), V('C')])], ('_',))]), ('call', '=', [V('B'), ('A', 'two')])))),
     ]
+    nine = [('A', 'w%d' % k) for k in range(9)]
+    prog.append(('wide', nine, 'tru'))
+    callers += [('t15', [V('X')], ('conj', ('call', 'call', [('A', 'wide')] + nine[:8] + [V('X')]), 'tru')),
+                ('t16', [V('X')], ('call', 'call', [('F', 'wide', nine[:1])] + nine[1:8] + [V('X')]))]
     callers = [(n, h, _fix(b)) for n, h, b in callers]
     prog.append(('al3', [V('X'), V('Y'), V('Z')], ('conj', ('call', '=', [V('X'), V('Z')]), ('call', 'it', [V('Y')])), True))
     chosen = rnd.sample(callers, rnd.randint(4, len(callers)))
